@@ -113,7 +113,18 @@ class PythiaServicer(pythia_service_pb2_grpc.PythiaServiceServicer):
 
     # Perform algorithmic computation.
     early_stop_request = vz.EarlyStopConverter.from_request_proto(request)
-    early_stopping_decisions = pythia_policy.early_stop(early_stop_request)
+    try:
+      early_stopping_decisions = pythia_policy.early_stop(early_stop_request)
+    # Same broad catch as in Suggest: whatever the policy raises leaves this
+    # servicer as one class, so that the Vizier service reports the failure in the
+    # same way whether Pythia runs in-process or behind a stub.
+    except Exception as e:  # pylint: disable=broad-except
+      logging.error(
+          'Failed to request early stopping decisions from Pythia for'
+          ' request: %s',
+          request,
+      )
+      raise RuntimeError('Pythia has encountered an error: ' + str(e)) from e
 
     return vz.EarlyStopConverter.to_decisions_proto(early_stopping_decisions)
 
